@@ -60,6 +60,15 @@ class TaggedBrokenPipe(BrokenPipeError):
         self.tag = tag
 
 
+class TaggedBlockingIO(BlockingIOError):
+    """What a buffered writer over a non-blocking pipe raises when the reader falls behind: part of the data WAS accepted
+    (characters_written), the rest was not."""
+
+    def __init__(self, tag, written):
+        super().__init__(11, tag, written)
+        self.tag = tag
+
+
 class TaggedTimeout(socket.timeout):
     def __init__(self, tag):
         super().__init__(tag)
